@@ -250,7 +250,7 @@ BUILTINS = {
 
 
 F3_KIND = {"un_i_data": "i", "un_b_data": "b", "un_list_data": "l", "un_map_data": "m"}
-DEVIATIONS = ("lazy", "lazy_expect", "f2", "f3", "f6")
+DEVIATIONS = ("lazy", "lazy_expect", "f2", "f3", "f3x", "f6")
 
 
 class Interp(object):
@@ -259,10 +259,13 @@ class Interp(object):
       lazy        `let` right-hand sides and function arguments are evaluated by need (FINDINGS F1 / F1b)
       lazy_expect a checked down-cast to a primitive type (`expect v: Int / ByteArray / Bool / Void = data`) is only
                   performed (possible abort) when one of the variables it binds is first used (FINDINGS F10)
-      f2          a list pattern with a tail is tried before earlier list patterns with a tail that have more
-                  elements (FINDINGS F2)
+      f2          at a `when` whose clauses contain the F2 trigger shape (a list pattern with a tail after a longer
+                  list pattern with a tail) any *matching* clause may be taken, not necessarily the first
+                  (`choices` selects which; FINDINGS F2)
       f3          `un_i_data` / `un_b_data` / `un_list_data` / `un_map_data` of Data of another kind do not abort as
                   long as the result is only turned back into Data (FINDINGS F3)
+      f3x         the same rewrite applied to `expect v: Int = d` / `expect v: ByteArray = d`: Data of another kind is
+                  let through as long as v is only turned back into Data (FINDINGS F11)
       f6          `x && False` is False without evaluating x (FINDINGS F6)"""
 
     def __init__(self, module, fuel=200000, lazy=False, dev=()):
@@ -281,7 +284,11 @@ class Interp(object):
         self.lazy_expect = "lazy_expect" in self.dev
         self.f2 = "f2" in self.dev
         self.f3 = "f3" in self.dev
+        self.f3x = "f3x" in self.dev
         self.f6 = "f6" in self.dev
+        self.choices = []
+        self.trace = []
+        self._f2_cache = {}
         self.fn_clos = {}
 
     # -------------------------------------------------------------- driver
@@ -360,7 +367,7 @@ class Interp(object):
     def e_Bin(self, e, env):
         op = e.op
         if op == "&&":
-            if self.f6 and e.r.K == "Lit" and e.r.val is False:
+            if self.f6 and self.const_false(e.r):
                 return False
             return self.ev(e.l, env) and self.ev(e.r, env)
         if op == "||":
@@ -395,6 +402,24 @@ class Interp(object):
             return a >= b
         raise ValueError(op)
 
+    def f2_shape(self, e):
+        r = self._f2_cache.get(id(e))
+        if r is None:
+            import pats
+
+            flat = [p for alts, _b in e.clauses for p in alts]
+            r = any(pats.list_tail_order_hazard(flat[i], flat[j]) for i in range(len(flat)) for j in range(i + 1, len(flat)))
+            self._f2_cache[id(e)] = r
+        return r
+
+    def const_false(self, e):
+        """literally `False`, or a module constant defined as such (it is inlined before the rewrite)"""
+        seen = 0
+        while e.K == "Var" and e.name in self.consts and seen < 10:
+            e = self.consts[e.name].expr
+            seen += 1
+        return e.K == "Lit" and e.val is False
+
     def e_Un(self, e, env):
         v = self.ev(e.e, env)
         return (not v) if e.op == "!" else -v
@@ -402,7 +427,7 @@ class Interp(object):
     def e_Chain(self, e, env):
         if e.kind == "and":
             es = e.es
-            if self.f6 and len(es) >= 2 and es[-1].K == "Lit" and es[-1].val is False:
+            if self.f6 and len(es) >= 2 and self.const_false(es[-1]):
                 # and { e1, .., e(n-1), False } == e1 && (.. && (e(n-1) && False)): the innermost `&&` is dropped
                 for x in es[:-2]:
                     if not self.ev(x, env):
@@ -435,24 +460,31 @@ class Interp(object):
         return self.ev(e.els, env)
 
     def e_When(self, e, env):
-        v = self.ev(e.subj, env)
-        if self.f2:
-            import pats
-
-            flat = [(p, body) for alts, body in e.clauses for p in alts]
-            order = []
-            for p, body in flat:
-                pos = len(order)
-                for i, (q, _b) in enumerate(order):
-                    if pats.list_tail_order_hazard(q, p):
-                        pos = i
-                        break
-                order.insert(pos, (p, body))
-            for p, body in order:
-                env2 = dict(env)
-                if self.match(p, v, env2):
-                    return self.ev(body, env2)
-            raise Abort()
+        if self.lazy and e.subj.K == "TupleE":
+            # `when (a, b, ..) is`: the tuple is never built, each column is only evaluated when a pattern inspects it
+            v = tuple(Thunk(x, env) for x in e.subj.elems)
+        elif self.lazy:
+            v = Thunk(e.subj, env)  # forced by the first pattern that has to inspect it
+        else:
+            v = self.ev(e.subj, env)
+        if self.f2 and self.f2_shape(e):
+            # FINDINGS F2: at a `when` that has the trigger shape, first-match is not respected; which of the
+            # matching clauses is taken is left to `self.choices` (explored exhaustively by run_c01.explain)
+            matching = []
+            for alts, body in e.clauses:
+                for p in alts:
+                    env2 = dict(env)
+                    if self.match(p, v, env2):
+                        matching.append((body, env2))
+            if not matching:
+                raise AssertionError("non-exhaustive when (generator bug)")
+            pick = 0
+            if len(matching) > 1:
+                i = len(self.trace)
+                pick = self.choices[i] if i < len(self.choices) else 0
+                self.trace.append(len(matching))
+            body, env2 = matching[pick]
+            return self.ev(body, env2)
         for alts, body in e.clauses:
             for p in alts:
                 env2 = dict(env)
@@ -508,10 +540,7 @@ class Interp(object):
                     if "env" not in state:
                         v = self.ev(e.rhs, env)
                         if cast:
-                            try:
-                                v = M.from_data(v, e.annot, self.adts)
-                            except M.Mismatch:
-                                raise Abort()
+                            v = self.cast(v, e)
                         tmp = {}
                         if not self.match(e.pat, v, tmp):
                             raise Abort()
@@ -530,14 +559,19 @@ class Interp(object):
                 return self.ev(e.body, env2)
         v = self.ev(e.rhs, env)
         if e.rhs.ty == G.DATA and e.annot is not None and e.annot != G.DATA:
-            try:
-                v = M.from_data(v, e.annot, self.adts)
-            except M.Mismatch:
-                raise Abort()
+            v = self.cast(v, e)
         env2 = dict(env)
         if not self.match(e.pat, v, env2):
             raise Abort()
         return self.ev(e.body, env2)
+
+    def cast(self, d, e):
+        try:
+            return M.from_data(d, e.annot, self.adts)
+        except M.Mismatch:
+            if self.f3x and e.annot[0] in ("Int", "Bytes") and e.pat.K == "PVar":
+                return M.Opaque(d)
+            raise Abort()
 
     def e_ExpectBool(self, e, env):
         if not self.ev(e.cond, env):
@@ -633,6 +667,22 @@ class Interp(object):
         if k == "PWild":
             return True
         if type(v) is Thunk:
+            if self.lazy and k in ("PCon", "PTuple", "PPair", "PAs"):
+                import pats
+
+                if pats.irrefutable(p, self.adts):
+                    # nothing to test: the variables are bound by need
+                    def proj(name, v=v):
+                        def go():
+                            tmp = {}
+                            self.match(p, self.force(v), tmp)
+                            x = tmp[name]
+                            return self.force(x) if type(x) is Thunk else x
+                        return go
+
+                    for name, _t in pats.pattern_vars(p):
+                        env[name] = Thunk(proj(name), None)
+                    return True
             v = self.force(v)
         if k == "PInt":
             return v == p.n
@@ -675,6 +725,26 @@ class Interp(object):
         raise ValueError(k)
 
 
+def run_choices(module, entry, args, fuel, dev, choices):
+    """like run, for the non-deterministic deviation f2: -> (outcome, trace) where trace[i] is the number of
+    alternatives that were available at the i-th choice point"""
+    it = Interp(module, fuel, False, dev)
+    it.choices = list(choices)
+    try:
+        v = it.force(it.call_entry(entry, args))
+        if type(v) is M.Opaque:
+            v = v.d
+        return ("ok", M.data_to_json(v)), it.trace
+    except Abort:
+        return ("abort",), it.trace
+    except (OutOfFuel, RecursionError):
+        return ("fuel",), it.trace
+    except (TypeError, AttributeError):
+        if it.f3 or it.f3x:
+            return ("abort",), it.trace
+        raise
+
+
 def run(module, entry, args, fuel=200000, lazy=False, dev=()):
     """entry: gast.Entry (or its name); args: python values of the parameter types.
     Returns ("ok", data_json) | ("abort",) | ("fuel",).
@@ -690,7 +760,7 @@ def run(module, entry, args, fuel=200000, lazy=False, dev=()):
     except Abort:
         return ("abort",)
     except (TypeError, AttributeError):
-        if it.f3:
+        if it.f3 or it.f3x:
             return ("abort",)  # an unchecked un_*_data result consumed as a real value
         raise
     except (OutOfFuel, RecursionError):
